@@ -59,6 +59,7 @@ KERNELS = [
     ("matMulT", "transmat.h", hdr(r"operator\*", ["Mat", "TransMat"]), "Mat", None),
     ("tMulT", "transmat.h", hdr(r"operator\*", ["TransMat", "TransMat"]), "Mat", None),
     ("transT", "transmat.h", hdr(r"\btrans", ["TransMat"]), "Mat", None),
+    ("matMulSym", "symmat.h", r"operator\*\s*\((?=const Mat<Float, Index, Exc>& A, const SymMat<)", "Mat", None),
     ("dot", "vecbase.h", hdr(r"VecBase<Float, Index, Exc>::dot", ["VecBase"]), "Float", "VecBase"),
     # storage primitives: stores over a LIVE buffer (tie: forE_over / forE_inplace, Lemmas/KernelLoopsNested.lean)
     ("baseScale", "matvecbase.h", hdr(r"void operator\*=", ["Float"]), "this", "MatVecBase"),
@@ -100,6 +101,7 @@ class Kernel:
             if c == "Float":
                 self.kind[n] = "K"
         self.lines = []
+        self.pre = []
 
     @staticmethod
     def split_params(ptxt):
@@ -167,7 +169,7 @@ class Kernel:
             if e[1] in env and self.kind.get(e[1]) in ("nat", "ptr"):
                 return e[1]
             bad(f"{self.name}: `{e[1]}` read before it is assigned (or not an index)")
-        if k == "bin" and e[1] in ("+", "-", "*"):
+        if k == "bin" and e[1] in ("+", "-", "*", "/"):
             return f"({self.nat(e[2], env)} {e[1]} {self.nat(e[3], env)})"
         if k == "meth" and not e[3]:
             o = "this" if e[1] == ("var", "this") else self.objname(e[1])
@@ -213,6 +215,12 @@ class Kernel:
                 p = p[1]
             if p[0] == "var" and self.kind.get(p[1]) == "ptr" and p[1] in env:
                 return ("rd", self.data(self.pbuf[p[1]]), p[1])
+        if e[0] == "index" and e[1][0] == "var" and self.kind.get(e[1][1]) == "ptr1":
+            ix = e[2]
+            if ix[0] == "pre++" and ix[1][0] == "var" and self.kind.get(ix[1][1]) == "nat" and ix[1][1] in env:
+                self.pre.append(ix[1][1])           # `b[++l]`: l is advanced BEFORE the read
+                ix = ix[1]
+            return ("rd", self.data(self.pbuf[e[1][1]]), f"({self.nat(ix, env)} - 1)")
         if e[0] == "call" and e[1] in self.cls:
             c, args = self.cls[e[1]], [self.nat(a, env) for a in e[2]]
             if c in ("Mat", "TransMat", "MatBase", "SymMat") and len(args) == 2:
@@ -243,7 +251,11 @@ class Kernel:
                     bad(f"{self.name}: {e}")
                 out.append(f"{pad}let v_ ← rdMap (fun x => x {e[1]} {r[1]}) {x[1]} {x[2]}")
                 return "v_", post
+            self.pre = []
             x, y = self.element(l, env, post), self.element(r, env, post)
+            for v in self.pre:
+                out.append(f"{pad}let {v} := {v} + 1")
+            self.pre = []
             if x[0] == "rd" and y[0] == "rd":
                 if e[1] == "*":
                     out.append(f"{pad}let v_ ← mulRd {x[1]} {x[2]} {y[1]} {y[2]}")
@@ -371,6 +383,9 @@ class Kernel:
             if kd == "nat" and op == "=":
                 self.set_var(v, self.nat(rhs, env), env, out, pad)
                 return
+            if kd == "nat" and op == "+=" and v in env:
+                out.append(f"{pad}let {v} := {v} + {self.nat(rhs, env)}")
+                return
             bad(f"{self.name}: assignment {e}")
         if lhs[0] == "deref":                    # *p = v; *p++ = v; *p++ *= f; *p++ += *b++
             p, inc = lhs[1], False
@@ -406,6 +421,11 @@ class Kernel:
             self.kind[name] = "nat"
             if init is not None:
                 self.set_var(name, self.nat(init, env), env, out, pad)
+            return
+        if ty == "Float*" and init is not None and init[0] == "bin" and init[1] == "-" and init[3] == ("num", "1") \
+                and init[2][0] == "meth" and init[2][2] == "begin":
+            self.kind[name] = "ptr1"          # `X.begin() - 1`: only ever indexed, `b[l]` is cell l-1
+            self.pbuf[name] = self.ptr_target(init[2], env)
             return
         if ty in ("PTR", "Float*"):
             self.kind[name] = "ptr"
@@ -472,9 +492,10 @@ class Kernel:
                 self.expr_stmt(s[1], env, out, pad)
             elif s[0] == "for":
                 init, cond, step, body = s[1], s[2], s[3], s[4]
-                if len(init) != 1:
+                if len(init) < 1:
                     bad(f"{self.name}: loop header {init}")
                 i0 = init[0]
+                pre_loop = init[1:]
                 if i0[0] == "decl" and i0[1] == "Index" and i0[3] is not None:
                     counter, lo = i0[2], self.nat(i0[3], env)
                 elif i0[0] == "expr" and i0[1][0] == "assign" and i0[1][1] == "=" and i0[1][2][0] == "var" \
@@ -487,9 +508,17 @@ class Kernel:
                     bad(f"{self.name}: loop condition {cond}")
                 hi = self.nat(cond[3], env)
                 count = f"({hi} + 1 - {lo})" if cond[1] == "<=" else f"({hi} - {lo})"
-                if not step or step[0] not in (("post++", ("var", counter)), ("pre++", ("var", counter))):
-                    bad(f"{self.name}: loop step {step} does not start with {counter}++")
-                dead |= self.loop(lo, count, counter, body, step[1:], env, out, pad)
+                incs = [ix for ix, x in enumerate(step) if x in (("post++", ("var", counter)), ("pre++", ("var", counter)))]
+                if len(incs) != 1:
+                    bad(f"{self.name}: loop step {step} does not advance {counter} exactly once")
+                after = step[incs[0] + 1:]
+                if repr(("var", counter)) in repr(after):
+                    bad(f"{self.name}: a step after {counter}++ uses {counter}")
+                for x in pre_loop:                      # `for (k=j+1, l+=j; …`: executed once, before the loop
+                    if x[0] != "expr" or repr(("var", counter)) in repr(x):
+                        bad(f"{self.name}: loop header {init}")
+                    self.expr_stmt(x[1], env, out, pad)
+                dead |= self.loop(lo, count, counter, body, step[:incs[0]] + after, env, out, pad)
                 env.discard(counter)
             elif s[0] == "while":
                 c = s[1]
@@ -503,7 +532,15 @@ class Kernel:
                     bad(f"{self.name}: while body does not advance {p} exactly once")
                 dead |= self.loop("0", f"({e} - {p})", "_w", s[2], [], env, out, pad)
             elif s[0] == "if":
-                bad(f"{self.name}: if after the guard")
+                c, a, b = s[1], s[2], s[3]
+                if not (not b and len(a) == 1 and a[0][0] == "return" and a[0][1] and a[0][1][0] == "call" and a[0][1][1] == "Mat"
+                        and len(a[0][1][2]) == 2 and c[0] == "bin" and c[1] == "==" and c[3] == ("num", "0") and self.ret == "Mat"):
+                    bad(f"{self.name}: if after the guard")
+                ds = [self.nat(x, env) for x in a[0][1][2]]
+                out.append(f"{pad}if {self.nat(c[2], env)} = 0 then pure ⟨{ds[0]}, {ds[1]}, mkBuf ({ds[0]} * {ds[1]})⟩ else do")
+                rest = stmts[stmts.index(s) + 1:]
+                self.stmts(rest, env, out, pad + "  ")
+                return
             elif s[0] == "return":
                 self.ret_stmt(s[1], env, out, pad)
             else:
